@@ -1008,3 +1008,7 @@ mod tests {
         assert_eq!(reader.read_vlc(&MVD_TABLE).unwrap(), None);
     }
 }
+
+#[cfg(any(kani, ruffle_rs_h263_rs_verif))]
+#[path = "/verif/hooks/h263/parser/macroblock.rs"]
+mod verif_hook;
